@@ -1084,8 +1084,12 @@ func checkField(f ast.Expr, st *types.Struct) (*types.Var, error) {
 	if !ok {
 		return nil, fmt.Errorf("%v must be a string with the field name", f)
 	}
+	name, err := strconv.Unquote(b.Value)
+	if err != nil {
+		return nil, fmt.Errorf("%v must be a string with the field name", b.Value)
+	}
 	for i := 0; i < st.NumFields(); i++ {
-		if strings.EqualFold(strconv.Quote(st.Field(i).Name()), b.Value) {
+		if st.Field(i).Name() == name {
 			if isPrevented(st.Tag(i)) {
 				return nil, fmt.Errorf("%s is prevented from injecting by wire", b.Value)
 			}
